@@ -209,6 +209,17 @@ CHECKS["C04"] = ("Http.tla",
     "Trusted: TLC, harness/servers.py (its environ/scope construction defines 'the same abstract request').",
     "DESIGN.md 5 C04, 7")
 
+CHECKS["C12"] = ("Robust.tla",
+    "TLC enumerates (input channel, fragment sequence, entry point) of Robust.tla and fixes the class-level oracle "
+    "OutcomeAllowed; every enumerated case concretised and given to the real accessor / application on both interfaces, "
+    "the escaping exception type and raising frame classified; random Latin-1 noise and bit-flipped / truncated bodies sampled "
+    "with the same oracle",
+    "14 channels (path, query, Host, Cookie, Accept, Content-Type, Content-Length, Date, Referer, Range, If-Range, "
+    "If-None-Match, If-Modified-Since, body) x fragment sequences of length <= 2 (thorough 3) x entry points. Reduced strength: "
+    "enumeration and a class-level oracle, no state-space insight; 'all bytes a client can send' is sampled, not decided.",
+    "Trusted: TLC, servers.py; header text is Latin-1; server-controlled parts of environ/scope are well-formed.",
+    "DESIGN.md 5 C12, 7")
+
 NOT_YET = {}
 
 ALL = ["C%02d" % i for i in range(1, 21)]
